@@ -118,7 +118,8 @@ def run(ctx):
             with open(cfg, 'w') as fh:
                 fh.write(text.replace('MaxN = 4', a).replace('NH = 2', b))
             ctx.mc('MC_LintQueue', cfg, timeout=2400, workers=8, required_actions=acts)
-    mc_future = pool.submit(mc_all)
+    # development only (mutation testing of the conformance part): VERIF_DEV_SKIP_MC=1 skips the spec-level run
+    mc_future = pool.submit((lambda: None) if os.environ.get('VERIF_DEV_SKIP_MC') else mc_all)
 
     # 2. cases: seeded file sets with planted violations and unparsable files
     if ctx.replay:
@@ -142,7 +143,10 @@ def run(ctx):
     jobs = [make_job(ctx, i, sp) for i, sp in enumerate(specs)]
     deadline = None if ctx.replay else ctx.t0 + (75 if quick else 900)
     with cf.ThreadPoolExecutor(max_workers=6) as ex:
-        outs = list(ex.map(lambda a: run_job(ctx, a[0], a[1][0], deadline), enumerate(jobs)))
+        # the first file sets (all scenarios / output configurations) are linted whatever it costs, the rest
+        # only while the tier's budget lasts (a loaded machine then checks fewer cases)
+        nmin = 7 if quick else 30
+        outs = list(ex.map(lambda a: run_job(ctx, a[0], a[1][0], deadline if a[0] >= nmin else None), enumerate(jobs)))
     ctx.cover['file_sets_not_linted_for_budget'] = sum(o is None for o in outs)
 
     # 4. project + validate
@@ -183,9 +187,12 @@ def run(ctx):
                       payload)
     mc_future.result()
     pool.shutdown()
-    if machinery:
+    ctx.cover['model_mismatches'] = len(machinery)
+    if machinery and not ctx.violations:
         raise MachineryError(f'{len(machinery)} real lint runs are not behaviours of the LintQueue model or the serial '
                              f'baseline disagrees with the planted reports; first: {machinery[0]}')
+    if machinery:
+        print(f'WARNING: {len(machinery)} recorded runs are not behaviours of the model (M clauses), first: {machinery[0][:2]}', file=sys.stderr)
 
     ctx.cover['lint_runs_per_scenario'] = {f'{a}:{b}': n for (a, b), n in sorted(per.items())}
     ctx.cover['events_validated'] = sum(len(c['events']) for c in cases)
